@@ -237,18 +237,18 @@ pub mod reuse {
         <Reuse>
 
         enum CanMode {
-            "CLASSIC" = 0,
-            "FD" = 1
+            "CLASSIC" = 0, /// classic frames, 8 data bytes
+            "FD" = 1 /// flexible data rate
         };
 
         enum EthMode {
-            "UDP" = 0,
+            "UDP" = 0, /// datagrams
             "TCP" = 1
         };
 
         struct Range16 {
-            int lo;
-            int hi;
+            int lo; /// lower bound
+            int hi; /// upper bound
         };
 
         struct Range32 {
@@ -263,7 +263,7 @@ pub mod reuse {
                     block "TIMING" struct {
                         enum CanMode mode;
                         taggedstruct {
-                            "MASK" ulong mask;
+                            "MASK" ulong mask; /// acceptance mask
                         };
                     };
                     block "LIMITS" struct {
